@@ -340,6 +340,14 @@ class DictState(DictLikeModel):
     def __init__(self, **params: Any):
         super().__init__(**params)
 
+    def __copy__(self) -> "DictState":
+        # A shallow copy gets its own top-level mapping: pydantic copies the table
+        # of private attributes but not the ``_data`` dict stored in it, so the keys
+        # of a copy handed out by ``get_state()`` would otherwise be the store's own.
+        new = super().__copy__()
+        new._data = dict(self._data)
+        return new
+
 
 # Default state type is DictState for the generic type
 MODEL_T = TypeVar("MODEL_T", bound=BaseModel, default=DictState)
